@@ -173,20 +173,24 @@ def readback_case(h, fmt, mode, w, hgt, sub=None):
             ix, iy, sw, sh = sub
             data = make_data(h.rng, mode, sh, sw)
             t = tiling.compute_for_subimage(ix, iy, sw, sh)
-            gx0, gy0 = t._img_gx0, t._img_gy0
         else:
             data = make_data(h.rng, mode, hgt, w)
             t = tiling
-            gx0, gy0 = t._img_gx0, t._img_gy0
+            ix = iy = 0
+        # expectation computed independently of the object under test (the specification)
+        spec_p2n = 256
+        while spec_p2n < max(w, hgt):
+            spec_p2n *= 2
+        gx0, gy0 = (spec_p2n - w) // 2 + ix, (spec_p2n - hgt) // 2 + iy
         img = Image.from_array(data.copy())
         t.tile_image(img, pio)
         bld = Builder(pio)
         url = bld.imgset.url
         lv = t._tile_levels
-        if tiling._tile_levels != lv or t._p2n != tiling._p2n:
-            h.violation(f"readback:{tag}", f"{tag}: sub-image tiling does not share the parent's geometry", input=tag)
+        if tiling._tile_levels != lv or t._p2n != tiling._p2n or t._p2n != spec_p2n or 256 * 2 ** lv != spec_p2n:
+            h.violation(f"readback:{tag}", f"{tag}: tiling geometry p2n={t._p2n} levels={lv} differs from the parent's / the specification's {spec_p2n}", input=tag)
             return
-        canvas = expected_canvas(mode, data, t._p2n, gx0, gy0)
+        canvas = expected_canvas(mode, data, spec_p2n, gx0, gy0)
         flip = fmt == "fits"
         for Y in range(2 ** lv):
             for X in range(2 ** lv):
@@ -271,6 +275,10 @@ def main():
     for (w, hh, ix, iy, sw, sh) in subs:
         t = StudyTiling(w, hh).compute_for_subimage(ix, iy, sw, sh)
         h.case(("sub", w, hh, ix, iy, sw, sh))
+        par = StudyTiling(w, hh)
+        if (t._img_gx0, t._img_gy0, t._p2n, t._tile_levels, t._width, t._height) != (par._img_gx0 + ix, par._img_gy0 + iy, par._p2n, par._tile_levels, sw, sh):
+            h.violation(f"subgeom:{w}x{hh}", f"sub-image ({ix},{iy},{sw},{sh}) of {w}x{hh}: offsets ({t._img_gx0},{t._img_gy0}) size {t._width}x{t._height} p2n {t._p2n}; "
+                        f"parent offsets ({par._img_gx0},{par._img_gy0}) p2n {par._p2n}", input=[w, hh, ix, iy, sw, sh])
         check_partition(h, t, f"{w}x{hh}+sub({ix},{iy},{sw},{sh})")
         a = f"{w} {hh} {ix} {iy} {sw} {sh}"
         add(f"gen study_sub {a}", fmt_study(t))
